@@ -28,7 +28,7 @@ def sh(cmd, cwd=None, env=None, timeout=3600):
 
 
 def confirm(pid, n, name):
-    src = "/tmp/mut/%s" % pid
+    src = os.environ.get("MUT_DIR", "/tmp/mut") + "/%s" % pid
     patch = os.path.join(src, "patch%s.diff" % n)
     demo = os.path.join(src, "demo%s.py" % n)
     wt = "/tmp/wt/confirm_%s" % name
